@@ -256,14 +256,26 @@ func (p ParsedScript) IsPushOnly() bool {
 	return true
 }
 
-// removeOpcodeByData will return the script minus any opcodes that would push
-// the passed data to the stack.
+// removeOpcodeByData will return the script minus any opcodes that are the
+// push of the passed data, which is the push instruction a script serialises
+// the data with: the smallest one that fits, bscript.Op0 for empty data.  Only
+// an opcode whose serialisation equals that push byte for byte is removed: a
+// push which merely contains the data, or which pushes it with another
+// instruction, stays.
 func (p ParsedScript) removeOpcodeByData(data []byte) ParsedScript {
+	prefix, err := bscript.PushDataPrefix(data)
+	if err != nil {
+		// No script can contain a push of that size.
+		return p
+	}
+	push := append(prefix, data...)
+
 	retScript := make(ParsedScript, 0, len(p))
 	for _, pop := range p {
-		if !pop.canonicalPush() || !bytes.Contains(pop.Data, data) {
-			retScript = append(retScript, pop)
+		if b, err := pop.bytes(); err == nil && bytes.Equal(b, push) {
+			continue
 		}
+		retScript = append(retScript, pop)
 	}
 
 	return retScript
@@ -278,32 +290,6 @@ func (p ParsedScript) removeOpcode(opcode byte) ParsedScript {
 	}
 
 	return retScript
-}
-
-// canonicalPush returns true if the object is either not a push instruction
-// or the push instruction contained wherein is matches the canonical form
-// or using the smallest instruction to do the job. False otherwise.
-func (o ParsedOpcode) canonicalPush() bool {
-	opcode := o.op.val
-	data := o.Data
-	dataLen := len(o.Data)
-	if opcode > bscript.Op16 {
-		return true
-	}
-
-	if opcode < bscript.OpPUSHDATA1 && opcode > bscript.Op0 && (dataLen == 1 && data[0] <= 16) {
-		return false
-	}
-	if opcode == bscript.OpPUSHDATA1 && dataLen < int(bscript.OpPUSHDATA1) {
-		return false
-	}
-	if opcode == bscript.OpPUSHDATA2 && dataLen <= 0xff {
-		return false
-	}
-	if opcode == bscript.OpPUSHDATA4 && dataLen <= 0xffff {
-		return false
-	}
-	return true
 }
 
 // bytes returns any data associated with the opcode encoded as it would be in
